@@ -61,7 +61,10 @@ theorem c13_causes (g : Gw) (ev : Event)
       exact absurd hd1 (hb _)
     · exact fail_alive _ _
   · simp only [handleEvent, hdec]
-    exact (c07_illegal g p hl).2
+    have hd := (c07_illegal g p hl).2
+    have : (g.handleSn p).keepBrokerAlive = g.handleSn p := by
+      unfold keepBrokerAlive; simp [hd]
+    rw [this]; exact hd
 
 theorem finishSession_emitted (g : Gw) (h : g.alive = false) : g.finishSession.endedEmitted = true := by
   unfold finishSession
